@@ -1,3 +1,55 @@
-import RlibModel.Model.Common
-/-! Line-protocol driver for engine `rational` (stub: to be written by the engine's author). -/
-def main : IO Unit := pure ()
+import RlibModel.Model.Rational
+/-! Line-protocol driver for engine `rational` (property C07).
+
+Case lines (`ty` ∈ i32 | i64 | i128):
+  `new:ty a b` · `neg:ty a b` · `floor:ty a b` · `ceil:ty a b` · `show:ty a b`
+  `add|sub|mul|div|cmp|eq:ty a b c d`        (operands are `new(a,b)` and `new(c,d)`)
+Results: a fraction is printed as `a b` (the two public fields), orderings as `lt|eq|gt`, booleans as
+`true|false`, `show` as the `Display` string.  `S` is computed with core Lean's `Rat` and is `any` when the
+case is outside the property's domain (zero denominator / divisor, or an operand above the magnitude guard). -/
+open Rlib Rlib.Rational
+
+def showQ (x : Q) : String := s!"{x.a} {x.b}"
+
+def showOrd : Ordering → String
+  | .lt => "lt" | .eq => "eq" | .gt => "gt"
+
+def unary (t : IntTy) (a b : Int) (f : Q → Except Panic Q) (sp : Rat → Q) : String :=
+  let m := (do let x ← new (some t) a b; f x)
+  let dom := b ≠ 0 ∧ inGuard t a ∧ inGuard t b
+  answer (showExcept showQ m) (if dom then showQ (sp (Rat.divInt a b)) else "any")
+
+def binary {α} (t : IntTy) (a b c d : Int) (f : Q → Q → Except Panic α) (sh : α → String)
+    (sp : Rat → Rat → String) (extraDom : Bool := true) : String :=
+  let m := (do let x ← new (some t) a b; let y ← new (some t) c d; f x y)
+  let dom := b ≠ 0 ∧ d ≠ 0 ∧ extraDom ∧ inGuard t a ∧ inGuard t b ∧ inGuard t c ∧ inGuard t d
+  answer (showExcept sh m) (if dom then sp (Rat.divInt a b) (Rat.divInt c d) else "any")
+
+def handle (line : String) : String :=
+  match tokens line with
+  | [] => badLine line
+  | op :: rest =>
+  match splitTy op, parseInts? rest with
+  | (op, some t), some [a, b] =>
+    match op with
+    | "new" => unary t a b (fun x => pure x) ofRat
+    | "neg" => unary t a b (neg (some t)) (fun q => ofRat (-q))
+    | "floor" => unary t a b (floor (some t)) (fun q => ⟨q.floor, 1⟩)
+    | "ceil" => unary t a b (ceil (some t)) (fun q => ⟨q.ceil, 1⟩)
+    | "show" =>
+      let m := new (some t) a b
+      let dom := b ≠ 0 ∧ inGuard t a ∧ inGuard t b
+      answer (showExcept render m) (if dom then render (ofRat (Rat.divInt a b)) else "any")
+    | _ => badLine line
+  | (op, some t), some [a, b, c, d] =>
+    match op with
+    | "add" => binary t a b c d (add (some t)) showQ (fun p q => showQ (ofRat (p + q)))
+    | "sub" => binary t a b c d (sub (some t)) showQ (fun p q => showQ (ofRat (p - q)))
+    | "mul" => binary t a b c d (mul (some t)) showQ (fun p q => showQ (ofRat (p * q)))
+    | "div" => binary t a b c d (div (some t)) showQ (fun p q => showQ (ofRat (p / q))) (c ≠ 0)
+    | "cmp" => binary t a b c d (cmp (some t)) showOrd (fun p q => showOrd (specCmp p q))
+    | "eq" => binary t a b c d (fun x y => pure (decide (x = y))) showBool (fun p q => showBool (decide (p = q)))
+    | _ => badLine line
+  | _, _ => badLine line
+
+def main : IO Unit := driverMain handle
